@@ -429,10 +429,13 @@ fn free_shape(subj: Subj, prof: &Prof, big: bool) -> BoxedStrategy<Case> {
     } else {
         vec(o, 0..max_ops).boxed()
     };
-    (cfg_for(subj, prof, big), ops, 0u8..4, prop::bool::weighted(0.25))
-        .prop_map(move |(mut cfg, ops, repolls, inexact)| {
+    (cfg_for(subj, prof, big), ops, 0u8..4, prop::bool::weighted(0.25), prop_oneof![5 => Just(0u8), 1 => Just(1u8), 1 => Just(2u8)])
+        .prop_map(move |(mut cfg, ops, repolls, inexact, kind)| {
             if cfg.ctor == 2 && !subj.is_join() {
                 cfg.inexact_iter = inexact;
+            }
+            if subj.is_collection() {
+                cfg.child_kind = kind;
             }
             Case {
                 subj,
